@@ -59,12 +59,15 @@ def inject(sim, src, ptype, payload, tag, **kw):
         raise MachineryError("hostile inject before the peer exists")
     addr = sim.caddr if src == "c" else ("10.0.0.2", 4433)
     rec = sim.ev("inject", src=src, ptype=ptype, tag=tag, plen=len(payload), pn=pn, accepted=False)
+    closing_before = sim.eps[dst]._close_event is not None
     sim.inject(dst, raw, addr, tag)
     # did the receiver authenticate and process the packet?  (internal read: the packet number is queued for acknowledgement)
     T = sim.A["tls"].Epoch
     ep_ = {"initial": T.INITIAL, "handshake": T.HANDSHAKE, "0rtt": T.ONE_RTT, "1rtt": T.ONE_RTT}[ptype]
     space = sim.eps[dst]._spaces.get(ep_) if hasattr(sim.eps[dst], "_spaces") else None
-    rec["accepted"] = bool(space is not None and pn in space.ack_queue)
+    # (a packet whose payload made the endpoint close is not queued for acknowledgement)
+    rec["accepted"] = bool(space is not None and pn in space.ack_queue) or \
+        (not closing_before and sim.eps[dst]._close_event is not None)
     return True
 
 
